@@ -246,7 +246,7 @@ void disasm_range_tms9900(
   uint32_t end)
 {
   char instruction[128];
-  char bytes[10];
+  char bytes[20];
   int cycles_min = 0, cycles_max = 0;
   int count;
   int n;
@@ -268,7 +268,7 @@ void disasm_range_tms9900(
       &cycles_max);
 
     bytes[0] = 0;
-    for (n = 0; n < count; n++)
+    for (n = 0; n < count; n += 2)
     {
       char temp[8];
       snprintf(temp, sizeof(temp), "%04x ", memory->read16(start + n));
